@@ -86,6 +86,20 @@ theorem no_external (fb : List (Option (Nat × Nat)) → List Nat)
     serializeLarge fb bufs = pad16 (fb (fields bufs [])) := by
   simp [serializeLarge, h, appendConsts, offsets]
 
+theorem appendConsts_aligned : ∀ (cs : List (List Nat)) (b : List Nat), b.length % 16 = 0 →
+    (appendConsts b cs).length % 16 = 0
+  | [], b, hb => by simpa [appendConsts] using hb
+  | c :: cs, b, _ => by
+    rw [appendConsts_cons]
+    exact appendConsts_aligned cs _ (by rw [pad16_length]; exact pad_mod _)
+
+/-- the file ends on a 16-byte boundary whatever the writer and the constants are (so a further
+    constant appended by the same rule would again start aligned) -/
+theorem output_aligned (fb : List (Option (Nat × Nat)) → List Nat)
+    (bufs : List (Option (List Nat))) : (serializeLarge fb bufs).length % 16 = 0 := by
+  unfold serializeLarge
+  exact appendConsts_aligned _ _ (by rw [pad16_length]; exact pad_mod _)
+
 /-! ### non-vacuity: a writer satisfying `LenInvariant`, three constants, all ranges disjoint -/
 
 /-- toy writer: 1 byte for a buffer without external data, 3 bytes (tag, offset, size) otherwise -/
